@@ -66,6 +66,8 @@ def start(vkind, n, cplx, Qe, seed):
         return rnd(n).astype(np.complex64 if cplx else np.float32), n
     if vkind == "intvec":
         return P.ints(g, (n, ), -3, 3, nonzero=True).astype(np.int64), n
+    if vkind == "cplxvec":  # a COMPLEX start vector (also on a real symmetric operator: the basis lives in the promoted, complex dtype)
+        return g.standard_normal(n) + 1j * g.standard_normal(n), n
     if vkind == "batch":
         return rnd(n, 2), n
     if vkind == "batchmix":  # an eigenvector next to a random vector: the two columns exhaust their Krylov spaces at different steps
@@ -82,6 +84,9 @@ def start(vkind, n, cplx, Qe, seed):
 
 def check_one(M, v, Qd, Td, j, m, tol, d_inv, lam, fam, bad, normA, check_first=True, exhausted_at=None):
     n = M.shape[0]
+    if not (np.all(np.isfinite(Qd)) and np.all(np.isfinite(Td))):  # before any truncation: NaN in the part beyond an exhausted space counts too
+        bad("nonfinite", {})
+        return
     if exhausted_at is not None and exhausted_at < j:
         # batch element whose Krylov space ends before the common column count: judge its leading part, the rest must carry no weight
         if np.max(np.abs(Td[exhausted_at:, :exhausted_at]), initial=0.0) > 1e-8 * normA:
@@ -289,12 +294,12 @@ def cases(tier, seed):
                 continue
             ms = list(range(1, n + 4)) if n <= 6 else sorted({1, 2, 5, n - 1, n, n + 5, 1000})
             for cplx in (False, True):
-                for vk in ("rand", "eig1", "eig2", "eig3", "batch", "batchmix", "default", "randtiny", "lowp", "intvec"):
-                    if (fam in ("tiny", "huge") and vk not in ("rand", "eig2", "batch", "default")) or (vk in ("randtiny", "lowp", "intvec") and fam not in ("definite", "indefinite")):
+                for vk in ("rand", "eig1", "eig2", "eig3", "batch", "batchmix", "default", "randtiny", "lowp", "intvec", "cplxvec"):
+                    if (fam in ("tiny", "huge") and vk not in ("rand", "eig2", "batch", "default")) or (vk in ("randtiny", "lowp", "intvec", "cplxvec") and fam not in ("definite", "indefinite")):
                         continue
                     if fam in ("Identity", "ScalarMul") and vk in ("eig2", "eig3", "batchmix"):
                         continue
-                    if vk == "batchmix" and (n < 3 or fam not in ("definite", "indefinite")):
+                    if vk == "batchmix" and (n < 3 or fam not in ("definite", "indefinite", "Diagonal")):  # Diagonal: the eigenvector column is EXACT (e_0)
                         continue
                     for tol in (1e-12, 1e-7, 1e-3):
                         for entry in ("lanczos", "lanczos_eigs", "Lanczos()"):
@@ -320,7 +325,7 @@ def case_signature(case):
 def describe(tier, seed):
     return {
         "bound": "Hermitian operators {definite, indefinite, repeated (3 distinct values), clustered (gap 1e-6), definite at scale 2^-45, indefinite at scale 2^40} real / complex and Identity / ScalarMul / "
-                 "Diagonal operators, n in " + str(_DESC.get("sizes")) + "; start vectors {random, random at scale 2^-45, float32 / complex64, integer, eigenvector, sum of 2 / 3 eigenvectors, 2-column "
+                 "Diagonal operators, n in " + str(_DESC.get("sizes")) + "; start vectors {random, random at scale 2^-45, float32 / complex64, integer, complex on a real operator, eigenvector, sum of 2 / 3 eigenvectors, 2-column "
                  "batch, default keyed}; every max_iters in 1..n+3 (n<=6) / {1,2,5,n-1,n,n+5,1000}; tol in {1e-12, 1e-7, 1e-3}; entry points lanczos, "
                  "lanczos_eigs, Lanczos()(A)",
         "alphabet": _DESC,
